@@ -229,7 +229,10 @@ def finalize(mod, tier, seed, results, wall, replay=None):
     inconclusive = None
     n_cases = len(results)
     if n_viol == 0:
-        missing = [c for c in required if counters.get(c, 0) == 0]
+        # (a replay runs the one recorded case: class-coverage counters of
+        # the whole workload do not apply to it)
+        missing = [c for c in required if counters.get(c, 0) == 0] \
+            if replay is None else []
         if missing:
             inconclusive = f'deciding monitors never reached: {missing}'
         elif n_cases and n_inconclusive / n_cases > 0.10:
